@@ -24,7 +24,8 @@ CLAIMED = {
                 'lfs/mem, on offered nodes and never on blocked resources.  '
                 'The application-level NodeList/Node/NumaNode finder is '
                 'explored by BFS over all find/release/allocate histories to '
-                'a depth bound with the same ledger.',
+                'a depth bound with the same ledger.'
+                ' The executor exploration (C07) is run as well: no task is released twice.',
   'note'      : 'Bounds: <=3 (quick) / <=4 (thorough) tasks per scenario, '
                 'layouts of 1-3 nodes; ZMQ and mp.Queue replaced by in-memory '
                 'FIFOs with msgpack/pickle copies; the ledger and the slot '
@@ -46,7 +47,8 @@ CLAIMED = {
                 'GPU amount, lfs/mem, ranks_per_node, colocate history; '
                 'oversize requests must be rejected, never granted or left '
                 'waiting on an idle pilot.  NodeList.find_slots results are '
-                'checked against their RankRequirements.',
+                'checked against their RankRequirements.'
+                ' Ranks of one placement share no core or whole GPU.',
   'note'      : 'Same bounds and trusted base as C01; colocate is read as '
                 '"subset of the nodes used for that tag before".',
  },
@@ -118,7 +120,8 @@ CLAIMED = {
                 'of the buffered state notifications to the client are '
                 'enumerated; each task must be final exactly once with the '
                 'state the injected events imply, with exit code / exception '
-                'recorded, and the other task must still reach DONE.',
+                'recorded, and the other task must still reach DONE.'
+                ' Two queue puts may arrive as one bulk (the bridge buffers single things); the client enumeration also drops up to one (thorough two) non-final notifications per task; no task is announced in two different final states; the executor exploration (C07) contributes the hand-on and ownership clauses.',
   'note'      : 'Executor handlers and scheduler-loop iterations are atomic '
                 'here (their interleavings are C07/C04); notifications are '
                 'split per task for the client-order enumeration (batch '
@@ -141,7 +144,8 @@ CLAIMED = {
                 'callback sequence and resulting Task.state of each task must '
                 'equal the per-task monotone reference automaton applied '
                 'independently of the rest of the batch (batch isolation), '
-                'manager-level and task-level callbacks must agree.',
+                'manager-level and task-level callbacks must agree.'
+                " A pilot's end handled next to a task notification (two threads, engine B, all schedules within the delay bound) and callbacks which change the callback registry during notification are explored as well.",
   'note'      : 'Reference automaton A.3 is trusted; two tasks; bulk-callback '
                 'mode is not explored.',
  },
@@ -168,7 +172,8 @@ CLAIMED = {
                 'one hand-on (push with outcome, or FAILED), exactly one '
                 'unschedule publication, outcome consistent with the exit '
                 'code / cancel request, nothing left in _tasks, no deadlock, '
-                'no thread death, serialisable messages.',
+                'no thread death, serialisable messages.'
+                " Scenarios include start-up limits, processes which die late after the kill (bounded waits may time out) and an ownership oracle: the watcher writes a task's outcome only for tasks it took out of the registry itself.",
   'note'      : 'Line-level (not byte-code-level) interleavings; advance() and '
                 'publish() are atomic; a killed process dies at once; '
                 'sp.Popen/os.killpg/time are harness fakes; script creation is '
@@ -195,7 +200,8 @@ CLAIMED = {
                 'undisturbed callback sequence.  The same oracle family is '
                 'evaluated where the request lands inside the scheduler loop '
                 '(three observable steps of the request at every read point) '
-                'and inside the executor threads (delay-bounded schedules).',
+                'and inside the executor threads (delay-bounded schedules).'
+                " The two effects of the scheduler child's cancel handler are applied in the order the real code produces them; cancel requests against the raptor backlog (every subset of three neighbours) and separate back-to-back requests are included.",
   'note'      : 'A pending cancel delivery is dropped from the state once the '
                 'named task can no longer reach that component (linear '
                 'pipeline).',
@@ -291,7 +297,8 @@ CLAIMED = {
                 'added, others only to currently added pilots, all sandboxes '
                 'set under the pilot sandbox, round-robin spread within a '
                 'batch, backfilling eligibility window, high-water mark and '
-                'usage figure back to zero.',
+                'usage figure back to zero.'
+                " Thread level (engine B): the worker thread's work() races with the control and state subscriber handlers for every realisable pair after 9 prefixes; end-state clauses which hold for either order, deadlock detection.",
   'note'      : '2 pilots x 4 cores, <= 4 tasks; the pilot-state reference is '
                 'the monotone maximum of the notifications sent; exceptions '
                 'escaping a handler are treated as the subscriber thread '
@@ -310,7 +317,8 @@ CLAIMED = {
                 'established through the real _update_tasks, x 16 pilot ending '
                 'sequences through the real _pilot_state_cb: own non-final '
                 'tasks become FAILED naming the pilot, every other task keeps '
-                'state/exception, and exactly the changed tasks are published.',
+                'state/exception, and exactly the changed tasks are published.'
+                ' Thread level (engine B): the pilot-end handler races with a task notification applied by the state subscriber thread (delay bound 1, 2 for DONE); sequential orders on the real code are the reference; what is published must agree with the end state.',
   'note'      : 'Pilots are real Pilot facades whose state is set by the '
                 'harness.',
  },
@@ -334,7 +342,8 @@ CLAIMED = {
                 'terminate} on a bare Agent_0 followed by the real finalize(): '
                 'killme.signal and the published state name the first cause; '
                 'the last stanza of bootstrap_0.sh is executed by bash on the '
-                'file.',
+                'file.'
+                " (c) the real PMGRLaunchingComponent.work() over bulks of 1-3 pilots x failing targets x {launcher, staging} failures; (d) control-thread pilot_activate vs state-thread notification (engine B); (e) the agent's stopping thread vs its work-loop thread (engine B).",
   'note'      : 'A.4 is deliberately weaker than the task automaton (repeats '
                 'allowed); the 1900-line bootstrapper is not executed beyond '
                 'its last stanza.',
@@ -355,7 +364,8 @@ CLAIMED = {
                 'Oracle: returns within 0.2 s of min(first satisfaction, '
                 'timeout), is reported as never returning if still polling '
                 '0.5 s later, never returns early, and returns the actual '
-                'states.',
+                'states.'
+                ' A wait call next to the notification thread whose application callback does not return (engine B): the wait call must still return.',
   'note'      : 'Entity states are set by the harness along prefix-closed '
                 'trajectories of a reduced state chain; "reached" follows the '
                 'linear state model (a later state implies the earlier was '
@@ -378,7 +388,8 @@ CLAIMED = {
                 'application delivery counts must equal the reference (every '
                 'other side exactly once iff forwarded, never twice, never back '
                 'to the origin) in every state and at quiescence; the search '
-                'must close (no circulation).',
+                'must close (no circulation).'
+                ' Forwarder callback errors are swallowed as the subscriber thread does; messages entering through the real Agent_0.command_port() are part of the alphabet.',
   'note'      : 'Reliable FIFO delivery per publisher/subscriber pair; message '
                 'loss, ZMQ slow joiners and the real proxy service are outside.',
  },
@@ -399,7 +410,8 @@ CLAIMED = {
                 'SMT incl. RADICAL_SMT) goes through the real '
                 '_start_pilot_bulk/_prepare_pilot and the job description and '
                 'written agent_0.cfg are compared with independent integer '
-                'arithmetic on the raw config values.',
+                'arithmetic on the raw config values.'
+                " Every (platform, schema) pair is also resolved after every other schema in a long-lived session and compared with a fresh session; the job descriptions are turned into PSI/J jobs by the real launcher up to submission; the agent's per-node figures are checked.",
   'note'      : 'Stops at the job description (no batch submission); shell '
                 'expansion of workdir strings is treated as environment.',
  },
@@ -448,7 +460,8 @@ CLAIMED = {
                 'notations through convert_slots_to_new/old and Slot().  The '
                 'space is enumerated completely, which is what the '
                 '"for every description" quantifier needs and a handful of '
-                'unit tests cannot give.',
+                'unit tests cannot give.'
+                ' Legal values of 40 attributes survive verify() unchanged; a changed description verifies like a fresh one; function tasks carry the callable as it is at encoding time; reserved keyword names.',
   'note'      : 'Trusted: the reference tables (deprecated->replacement, '
                 'required attribute per mode) transcribed from the '
                 'TaskDescription documentation; equality of descriptions is '
@@ -481,7 +494,8 @@ CLAIMED = {
                 'singles and pairs of 112 request payloads through the real '
                 'per-mode dispatchers: (out, err, ret, val, exc) truthful, '
                 'process environment (libc environ, confirmed by a child) '
-                'and stdio restored before the next request.',
+                'and stdio restored before the next request.'
+                " The base environment of proc/shell requests is restored; cancel requests against the scheduler's raptor backlog.",
   'note'      : 'Fake processes are preempted at synchronisation operations '
                 '(line-level only in one-request scenarios); oversize demands '
                 'are outcomes, not clauses; MPI workers are not explored.',
